@@ -33,7 +33,10 @@ RULE = (
     "constituents) with years; 0-2 (quick; 0-3 with programs) plot/export/reporting calls in drawn order, some repeated (plot_series, plot_bars, plot_cascade, cascade series, export_raw, "
     "export_results, Result.plot and, with programs, PlotData.programs for every quantity with optional bins/accumulation/plot, get_coverage, get_alloc, "
     "get_equivalent_alloc), the Result digest (every stored array incl. the program cache) taken before and after each; every characteristic without "
-    "denominator must hold the sum of its member compartments.  Inside check() every ordered subset of the output list and of the population list is "
+    "denominator must hold the sum of its member compartments; Result.export_raw is compared row by row with the stocks, characteristics, parameters and "
+    "annualised flows (sum over the links of one name of link.vals/dt); PlotData.programs values are compared with the Result's per-step program values, binned "
+    "as a step function ('previous') and accumulated (exact grids dt in {1,1/2,1/4,1/8} with bin edges on time steps); data cascades also on databook copies "
+    "with an 'All' row next to (other) own rows.  Inside check() every ordered subset of the output list and of the population list is "
     "requested (exhaustive over that finite space), plus pops='total', the same request for two results in one call (both orders) and, for 0-2 further runs of the same project "
     "on other time grids (other dt / start / end), every ordered subset of the results in one call; extra databook entries in several years and year lists in drawn (unsorted) order for the data cascades.  non-trivial = (>=2 populations and the request mixes number and dimensionless outputs) or a "
     "data cascade whose stages share constituents; distinct = distinct case hash"
@@ -45,6 +48,7 @@ ASSUMPTIONS = [
     "stage constituents of generated cascades are disjoint within a stage and nested between stages; cascades atomica refuses are discarded and counted",
     "exceptions raised inside plot_* / export_* calls are counted (labels) but are not violations: only the Result digest is asserted around them",
     "time-aggregated values are compared between requests (1e-12) and bounded by the interpolated own series; exact quadrature is not asserted",
+    "time-aggregated program quantities are compared with the own stepped integral only on exactly representable grids with bin edges on time steps (atomica samples the step function at sub-steps, which is exact only there); coverage_capacity with t_bins is refused by atomica and not compared",
     "weighted averages are not compared at time points where value x weight underflows (below 1e-280): value x weight / weight then loses digits",
 ]
 BUDGET = {"quick": 1600, "thorough": 40000}
@@ -316,6 +320,11 @@ def requests(draw, V, tier):
         req["other_runs"].append({"dt": float(dt2), "start": float(start2), "end": float(start2 + nsteps * dt2)})
     has_c = bool(V["fw_cascades"])
     req["calls"] = draw(st.lists(_call(V, has_c), min_size=0, max_size=(3 if V.get("programs") else 2) if tier == "quick" else 5))
+    if V.get("programs") and draw(st.integers(0, 3)) > 0:
+        # results with programs mostly get one time-aggregated program report (cheap, no figure)
+        tb = draw(st.sampled_from([1.0, 2 * V["dt"], 0.5, "all", [V["start"], V["start"] + 1.0, V["start"] + 2.0], [V["start"] + V["dt"], V["start"] + 3 * V["dt"]], [V["start"], V["start"] + 2 * V["dt"], V["start"] + 3 * V["dt"]]]))
+        q = draw(st.sampled_from(["spending", "spending", "equivalent_spending", "coverage_number", "coverage_number", "coverage_eligible", "coverage_fraction"]))
+        req["calls"].insert(0, ["programs_plotdata", {"quantity": q, "outputs": None, "t_bins": tb, "accumulate": draw(st.sampled_from([None, None, None, "sum", "integrate"])), "plot": None, "times": 1}])
     return req
 
 
